@@ -293,6 +293,10 @@ func ColumnValueFromJSON(columnType JDBCType, value interface{}) (interface{}, e
 		if f, ok := asFloat(); ok {
 			return f, nil
 		}
+		// a DECIMAL recorded as the text the database gave keeps every digit: it stays that text
+		if s, ok := value.(string); ok && columnType == JDBCTypeDecimal {
+			return s, nil
+		}
 	// a value beyond the signed range of its width comes from an UNSIGNED column: it stays the number it is
 	case JDBCTypeTinyInt: // 1 Bytes
 		if i, ok := asInt(); ok {
